@@ -10,6 +10,8 @@ TARGETED = {
  "C01_r2": ["C01"], "C02_r2": ["C02", "C01", "C14"], "C03_r2": ["C03"], "C04_r2": ["C04", "C05"], "C05_r2": ["C05"], "C06_r2": ["C06"],
  "C07_r2": ["C07"], "C08_r2": ["C08"], "C09_r2": ["C09"], "C10_r2": ["C10"], "C11_r2": ["C11"], "C12_r2": ["C12"], "C13_r2": ["C13"],
  "C14_r2": ["C14"], "C15_r2": ["C15"], "C16_r2": ["C16"], "C17_r2": ["C17"], "C18_r2": ["C18", "C01"], "C19_r2": ["C19"], "C20_r2": ["C20"],
+ "C01_r3": ["C01"], "C02_r3": ["C02"], "C03_r3": ["C03"], "C04_r3": ["C04"], "C07_r3": ["C07"], "C09_r3": ["C09"], "C11_r3": ["C11"],
+ "C12_r3": ["C12"], "C13_r3": ["C13"], "C14_r3": ["C14"], "C15_r3": ["C15"], "C16_r3": ["C16"], "C18_r3": ["C18"], "C20_r3": ["C20"],
 }
 STRENGTHENED = {
  "C02": "names with escaped braces added to the C02 / C03 / C17 corpora (first run: missed by C02 and C03)",
@@ -24,6 +26,9 @@ STRENGTHENED = {
  "C10_r2": "`disabled` after / before other items of the same attribute added to C10, C04, C13 (first run: missed)",
  "C12_r2": "byte-level neighbours (bit 5 / 6 / 0 of every byte of a spelling flipped) added to the input generator",
  "C18_r2": "custom error + disabled default variant family added to C18 (first run: caught only by C01)",
+ "C04_r3": "attributes strum does not read (#[doc(hidden)], #[doc(alias = ..)], #[allow(..)]) placed before #[strum(disabled)] added to the corpora of C01 C04 C10 C13 C14 (first run: missed)",
+ "C13_r3": "same as C04_r3, plus a fallback-trait probe that no is_* predicate EXISTS for a disabled variant (an extra generated method is otherwise unobservable)",
+ "C12_r3": "pairs equal under Unicode folding as two spellings of ONE variant added to C12 (first run: missed)",
  "C02_r2": "several spellings of one variant differing only in ASCII case added to C01 / C14 (first run: caught only by C02)",
 }
 matrix = {}
@@ -40,7 +45,7 @@ for name in sorted(os.listdir(V)):
     ver = open(os.path.join(d, ".verify")).read().split() if os.path.exists(os.path.join(d, ".verify")) else ["?", "?", "?"]
     notes = open(os.path.join(d, "notes.md")).read() if os.path.exists(os.path.join(d, "notes.md")) else ""
     meta = {
-        "property": name.split("_")[0], "round": 2 if name.endswith("_r2") else 1,
+        "property": name.split("_")[0], "round": 3 if name.endswith("_r3") else (2 if name.endswith("_r2") else 1),
         "what_it_needs_to_manifest": notes[:2500],
         "confirmed_on_current_HEAD": {"demo_without_change_rc": ver[0], "existing_suite_with_change_rc": ver[1], "demo_with_change_rc": ver[2],
                                       "how": "tools/seed_verify_all.sh (scratch worktree of /repo HEAD; cargo test -p strum_tests --offline --test seeded_demo before / after "
